@@ -310,9 +310,10 @@ func (x *Exec) run(lines []string) {
 		}
 		wd.Stop()
 		if x.twin && len(toks) > 0 && (strings.HasPrefix(out, "ok") || strings.HasPrefix(out, "err") || strings.HasPrefix(out, "panic") || strings.HasPrefix(out, "valid")) {
-			out += " dg=" + x.stateDigest() + " etx=" + shortHash(strings.Join(catchMsgs, "|"))
+			out += " dg=" + x.stateDigest() + " etx=" + shortHash(strings.Join(catchMsgs, "|")) + " rsp=" + shortHash(strings.Join(respMsgs, "|"))
 		}
 		catchMsgs = nil
+		respMsgs = nil
 		fmt.Fprintln(x.out, out)
 		if !(len(toks) > 0 && toks[0] == "reset") {
 			x.scOut = append(x.scOut, out)
@@ -320,6 +321,16 @@ func (x *Exec) run(lines []string) {
 		if d := time.Since(t0); d > 500*time.Millisecond {
 			fmt.Fprintf(os.Stderr, "slow op (%v) line %d: %s\n", d, x.lineNo, line)
 		}
+	}
+}
+
+// responses of successfully handled messages (the transaction result data): part of what replicas
+// must agree on (C11)
+var respMsgs []string
+
+func noteResp(r interface{}, err error) {
+	if err == nil && r != nil {
+		respMsgs = append(respMsgs, fmt.Sprintf("%v", r))
 	}
 }
 
